@@ -190,6 +190,16 @@ def inliner_keeps_annotations(facts, rep, P="C07"):
     for b in fam:
         fl = Flow(facts, b, {"graphs::Node::add_annotation": [0]})
         adds = {bb for bb, t in b.calls() if (callee_name(t) or "").endswith("Graph::add_node_with_type") and not b.is_cleanup(bb)}
+        # helpers that create the node and hand it back (`add_node_without_inlining(..) -> Result<Node>`)
+        for bb, t in b.calls():
+            hb = facts.bodies.get(callee_name(t) or "")
+            if hb is None or hb.kind == "closure" or hb.file != b.file or b.is_cleanup(bb) or "graphs::Node" not in hb.local_ty(0):
+                continue
+            hfl = Flow(facts, hb)
+            hadds = {x for x, t2 in hb.calls() if (callee_name(t2) or "").endswith("Graph::add_node_with_type") and not hb.is_cleanup(x)}
+            rets = C.return_blocks(hb)
+            if hadds and rets and all(any(o[0] == "call" and o[1] in hadds for o in hfl.origins([0], (r_, None))) for r_ in rets):
+                adds.add(bb)
         for bb, t in b.calls():
             if callee_name(t) != "graphs::Node::add_annotation" or b.is_cleanup(bb):
                 continue
